@@ -343,4 +343,73 @@ theorem write_ok_count (fmt : Path → String → String) (fs : FS) (code : List
   have := fold_count fmt code { fs := fs, rel := relativeFiles fs, written := [], notTouched := 0 }
   simpa using this
 
+/-! ### each file is written at most once; pruning only removes collected directories -/
+
+theorem step_written_cases (fmt : Path → String → String) (st : WState) (item : Path × String) :
+    (stepFile fmt st item).written = st.written ∨ (stepFile fmt st item).written = item.1 :: st.written := by
+  rw [stepFile_eq]; unfold stepCore; split
+  · exact Or.inl rfl
+  · exact Or.inr rfl
+
+theorem fold_written_nodup (fmt : Path → String → String) (code : List (Path × String)) :
+    ∀ (st : WState), (keys code).Nodup → st.written.Nodup → (∀ p ∈ st.written, p ∉ keys code) →
+      (code.foldl (stepFile fmt) st).written.Nodup := by
+  induction code with
+  | nil => intro st _ h _; exact h
+  | cons kv rest ih =>
+    intro st hnd hw hdis
+    rcases kv with ⟨k, c⟩
+    simp only [keys, List.map_cons, List.nodup_cons] at hnd
+    rw [List.foldl_cons]
+    have hk : k ∉ st.written := fun hm => hdis k hm (by simp [keys])
+    apply ih _ hnd.2
+    · rcases step_written_cases fmt st (k, c) with e | e
+      · rw [e]; exact hw
+      · rw [e]; exact List.nodup_cons.mpr ⟨hk, hw⟩
+    · intro p hp
+      rcases step_written_cases fmt st (k, c) with e | e
+      · rw [e] at hp
+        intro hm; exact hdis p hp (by simp only [keys, List.map_cons]; exact List.mem_cons_of_mem _ hm)
+      · rw [e] at hp
+        rcases List.mem_cons.mp hp with e1 | e1
+        · subst e1; exact hnd.1
+        · intro hm; exact hdis p e1 (by simp only [keys, List.map_cons]; exact List.mem_cons_of_mem _ hm)
+
+theorem write_written_nodup (fmt : Path → String → String) (fs : FS) (code : List (Path × String)) (marker : Path)
+    (hnd : (keys code).Nodup) : (write fmt fs code marker).written.Nodup := by
+  by_cases hc : refuseCond fs marker
+  · rw [write_refused fmt fs code marker hc]; simp
+  · rw [write_ok fmt fs code marker hc]
+    simp only [afterFiles]
+    exact fold_written_nodup fmt code _ hnd (by simp) (by simp)
+
+
+theorem pruneDirs_subset (L : List Path) : ∀ (fs : FS) (d : Path), d ∈ (pruneDirs fs L).dirs → d ∈ fs.dirs := by
+  induction L with
+  | nil => intro fs d h; exact h
+  | cons x t ih =>
+    intro fs d h
+    unfold pruneDirs at h
+    rw [List.foldl_cons] at h
+    by_cases hb : hasEntryBeneath fs x = true
+    · rw [if_pos hb] at h; exact ih fs d h
+    · rw [if_neg hb] at h
+      have := ih _ d h
+      exact (List.mem_filter.mp this).1
+
+theorem pruneDirs_keeps (L : List Path) : ∀ (fs : FS) (d : Path), d ∈ fs.dirs → d ∉ L → d ∈ (pruneDirs fs L).dirs := by
+  induction L with
+  | nil => intro fs d h _; exact h
+  | cons x t ih =>
+    intro fs d h hn
+    unfold pruneDirs
+    rw [List.foldl_cons]
+    have hx : d ≠ x := fun e => hn (by simp [e])
+    have ht : d ∉ t := fun e => hn (List.mem_cons_of_mem _ e)
+    by_cases hb : hasEntryBeneath fs x = true
+    · rw [if_pos hb]; exact ih fs d h ht
+    · rw [if_neg hb]
+      apply ih _ d _ ht
+      exact List.mem_filter.mpr ⟨h, by simpa using hx⟩
+
 end TLVerif.Tool
